@@ -54,6 +54,14 @@ for name in names:
         print(f"{name}: {prop} exit={rc} {time.time() - t:.0f}s {line[:160]}", flush=True)
         if rc != 1 or "VIOLATION" not in out:
             missed.append(name)
+        else:
+            # keep the (shrunk) failing case: it can serve as a plain regression replay under replays/<id>/
+            vio = next((l for l in out.splitlines() if l.startswith("VIOLATION")), "")
+            src = vio.split("replay=")[-1].strip()
+            if src and os.path.exists(src) and "/replays/" not in src:
+                os.makedirs(os.path.join(here, "work", "seeded_witness"), exist_ok=True)
+                import shutil
+                shutil.copy(src, os.path.join(here, "work", "seeded_witness", f"{prop}--{name}.json"))
     finally:
         subprocess.run(f"git -C {repo} checkout -- .", shell=True)
 print(f"SUMMARY: {len(names)} directories, missed {missed}, not applicable {broken}")
